@@ -141,7 +141,7 @@ pub fn check_iteration<'a, I: Iterator<Item = Note<'a>>>(ctx: &mut Ctx, via: &st
     }
 }
 
-fn standalone(ctx: &mut Ctx, enc: Enc, align: u64, data: &[u8], any: bool) {
+pub fn standalone(ctx: &mut Ctx, enc: Enc, align: u64, data: &[u8], any: bool) {
     let class = class_of(enc);
     let al = align as usize;
     match (any, enc.big) {
